@@ -2,6 +2,7 @@ package main
 
 import (
 	"fmt"
+	"math"
 	"os"
 	"strings"
 	"time"
@@ -59,6 +60,17 @@ func c10OpenBolt(dataset string) *c10Bolt {
 		st.AddFkSetSymbol("kids", kids)
 	}
 	things.AddFkSymbol("owner", kids)
+	// further symbol kinds (sort clauses and predicates meet every kind of symbol the store can hold)
+	kids.AddFkSymbol("parent", things)                         // link back: owner.parent.s, cycles owner.parent.owner.n
+	things.AddSymbolWithKey("nk", ast.NodeTypeInt64, "n")      // a symbol whose key differs from its name
+	things.AddSymbol("ps", ast.NodeTypeString, "sub")          // a symbol inside a nested bucket
+	things.AddSymbol("ms", ast.NodeTypeString)                 // a mapped symbol (symbolMapWrapper)
+	things.MapSymbol("ms", boltz.NotNilStringMapper{})
+	things.AddSymbol("a", ast.NodeTypeAnyType)                 // types a comparator does not exist for
+	things.AddSymbol("o", ast.NodeTypeOther)
+	things.AddPublicSetSymbol("pss", ast.NodeTypeString)
+	things.AddSymbol("createdAt", ast.NodeTypeDatetime)
+	things.AddSymbol("isSystem", ast.NodeTypeBool)
 	b := &c10Bolt{db: db, things: things, kids: kids}
 	err = db.Update(func(tx *bbolt.Tx) error {
 		tb := boltz.GetOrCreatePath(tx, "u", "things")
@@ -102,6 +114,12 @@ func c10OpenBolt(dataset string) *c10Bolt {
 				e.SetStringList("kids", []string{"k1", "k2", "k3", "zz"}[i:], nil)
 				e.SetString("owner", "k1", nil)
 			}
+			if dataset == "big" {
+				c10FillBig(tb, kb)
+			}
+			if dataset == "mistyped" {
+				c10FillMistyped(tb, kb)
+			}
 			if strings.HasPrefix(dataset, "mixed") {
 				// entities without any field and partially filled ones, before (A) or after (B) the full ones
 				ids := []string{"a0", "a1", "a2"}
@@ -131,6 +149,106 @@ func c10OpenBolt(dataset string) *c10Bolt {
 	return b
 }
 
+// big: 14 more entities whose sort keys are null, equal or special (NaN, infinities, -0, empty string)
+// in an order (by id) that puts nulls on either side of every comparison while the result tree is
+// rebalanced and trimmed.
+func c10FillBig(tb, kb *boltz.TypedBucket) {
+	strs := []string{"", "x", "x", "m", "世", "a b", "X"}
+	fl := []float64{math.NaN(), math.Inf(1), math.Inf(-1), math.Copysign(0, -1), 0, 2.5, 2.5}
+	for i := 0; i < 14; i++ {
+		e := tb.GetOrCreatePath(fmt.Sprintf("b%02d", (i*5)%14)) // ids in a scrambled order
+		if i%3 != 0 {
+			e.SetString("s", strs[i%len(strs)], nil)
+		}
+		if i%4 != 1 {
+			e.SetInt64("n", int64([]int{0, -1, 7, 7, 1 << 40, -(1 << 40), 3}[i%7]), nil)
+		}
+		if i%5 != 2 {
+			e.SetFloat64("f", fl[i%len(fl)], nil)
+		}
+		if i%3 != 1 {
+			e.SetBool("b", i%2 == 0, nil)
+		}
+		if i%4 != 2 {
+			e.SetTime("d", time.Unix(1577836800+int64(i%3)*86400, int64(i%2)).In(time.FixedZone("x", (i%5-2)*3600)), nil)
+		}
+		if i%2 == 0 {
+			e.SetString("ms", strs[(i/2)%len(strs)], nil)
+			e.SetString("owner", []string{"k1", "k2", "zz", ""}[(i/2)%4], nil)
+			e.GetOrCreatePath("sub").SetString("ps", strs[i%len(strs)], nil)
+		}
+		if i%3 == 0 {
+			e.SetStringList("ss", []string{"x", "y", "z"}[:i%4%3+1], nil)
+			e.SetStringList("kids", []string{"k3", "k1"}[:i%2+1], nil)
+			e.SetStringList("pss", []string{"p"}, nil)
+		}
+		if i%7 == 0 {
+			e.SetTime("createdAt", time.Unix(int64(i), 0).UTC(), nil)
+			e.SetBool("isSystem", i%2 == 0, nil)
+			e.PutMap("tags", map[string]interface{}{"x": map[string]interface{}{"y": "deep"}, "y": nil}, nil, false)
+		}
+	}
+	for i, id := range []string{"k1", "k2", "k3"} {
+		kb.GetOrCreatePath(id).SetString("parent", []string{"t1", "b00", "nope"}[i], nil)
+	}
+}
+
+// mistyped: fields that hold a value of another type than their symbol declares, sets whose elements
+// have mixed types, links that are not strings.
+func c10FillMistyped(tb, kb *boltz.TypedBucket) {
+	for i, id := range []string{"m1", "m2", "m3", "m4"} {
+		e := tb.GetOrCreatePath(id)
+		switch i {
+		case 0:
+			e.SetInt64("s", 5, nil)
+			e.SetString("n", "7", nil)
+			e.SetBool("f", true, nil)
+			e.SetString("b", "true", nil)
+			e.SetInt64("d", 1577836800, nil)
+			e.SetInt64("owner", 1, nil)
+			e.SetInt64("ms", 3, nil)
+		case 1:
+			e.SetFloat64("s", 1.5, nil)
+			e.SetFloat64("n", 2.5, nil)
+			e.SetInt32("f", 3, nil)
+			e.SetTime("b", time.Unix(0, 0).UTC(), nil)
+			e.SetString("d", "2020-01-01T00:00:00Z", nil)
+			e.SetBool("owner", false, nil)
+		case 2:
+			e.SetBool("s", false, nil)
+			e.SetTime("n", time.Unix(5, 0).UTC(), nil)
+			e.SetTime("s2", time.Unix(5, 0).UTC(), nil)
+			e.SetInt32("n", 9, nil)
+			e.SetString("f", "x", nil)
+			e.SetInt64("b", 1, nil)
+			e.SetFloat64("d", 0.5, nil)
+			e.SetString("tags", "not a map", nil)
+		case 3:
+			e.SetTime("s", time.Unix(7, 0).UTC(), nil)
+			e.SetString("ss", "not a set", nil)
+			e.SetInt64("kids", 4, nil)
+			e.SetString("sub", "not a bucket", nil)
+		}
+		if i < 3 {
+			// sets with elements of several types
+			ss := e.GetOrCreateBucket("ss")
+			ss.SetListEntry(boltz.TypeString, []byte("x"))
+			ss.SetListEntry(boltz.TypeInt64, []byte{1, 0, 0, 0, 0, 0, 0, 0})
+			ss.SetListEntry(boltz.TypeBool, []byte{1})
+			ss.SetListEntry(boltz.TypeNil, nil)
+			ns := e.GetOrCreateBucket("ns")
+			ns.SetListEntry(boltz.TypeString, []byte("5"))
+			ns.SetListEntry(boltz.TypeFloat64, []byte{0, 0, 0, 0, 0, 0, 0xf8, 0x3f})
+			kd := e.GetOrCreateBucket("kids")
+			kd.SetListEntry(boltz.TypeInt64, []byte{2, 0, 0, 0, 0, 0, 0, 0})
+			kd.SetListEntry(boltz.TypeString, []byte("k1"))
+			kd.SetListEntry(boltz.TypeString, []byte(""))
+		}
+	}
+	kb.GetOrCreatePath("k1").SetInt64("parent", 1, nil)
+	kb.GetOrCreatePath("").SetString("s", "empty id", nil)
+}
+
 func c10ExecBolt(f []string) string {
 	b := c10OpenBolt(f[1])
 	text := fromWire(f[2])
@@ -152,7 +270,21 @@ func c10ExecBolt(f []string) string {
 			}
 			r2 = fmt.Sprint(n)
 		}
-		res = "bolt=" + r1 + " iter=" + r2
+		// a parsed query used twice (setPaging and the comparator write into the query object)
+		r3 := "err"
+		if q, perr := ast.Parse(b.things, text); perr == nil {
+			ids1, n1, e1 := b.things.QueryIdsC(tx, q)
+			ids2, n2, e2 := b.things.QueryIdsC(tx, q)
+			switch {
+			case e1 != nil || e2 != nil:
+				r3 = "qerr"
+			case len(ids1) == len(ids2) && n1 == n2:
+				r3 = "same"
+			default:
+				r3 = "differs"
+			}
+		}
+		res = "bolt=" + r1 + " iter=" + r2 + " twice=" + r3
 		return nil
 	})
 	return res
@@ -175,11 +307,12 @@ func (g *c10Gen) genBolt() {
 		"true sort by s", "true sort by s desc", "sort by n", "sort by n desc limit 2", "sort by f", "sort by f desc skip 1", "sort by b",
 		"sort by b desc", "sort by d", "sort by d desc", "sort by s, n, f, b, d", "sort by d desc, b, f desc, n, s desc", "sort by id desc",
 		"sort by owner", "sort by owner.s", "sort by tags.x", "sort by ss", "n > 0 sort by f limit 1", "f > 1.5 sort by n", "n > 1.5 sort by s"}
-	for _, ds := range []string{"empty", "nulls", "full", "mixedA", "mixedB"} {
+	for _, ds := range c10BoltDatasets {
 		for _, q := range fixed {
 			emit(ds, q)
 		}
 	}
+	g.genBoltSort(emit)
 	g.nums, g.strs, g.dts = c10SafeNumbers, c10SafeStrings, c10SafeDatetimes
 	g.plainIdents = []string{"s", "n", "f", "b", "d", "tags.x", "owner", "owner.s", "id", "s", "n"}
 	g.setIdents = []string{"ss", "ns", "kids", "kids.ss", "kids.n", "kids", "ss"}
@@ -189,6 +322,107 @@ func (g *c10Gen) genBolt() {
 	}()
 	for i := 0; i < n; i++ {
 		p := g.sentence(c10QIdents, 1+g.r.intn(3))
-		emit(pick(g.r, []string{"empty", "nulls", "full", "mixedA", "mixedB", "mixedA", "mixedB"}), strings.Join(p, ""))
+		emit(pick(g.r, []string{"empty", "nulls", "full", "mixedA", "mixedB", "mixedA", "mixedB", "big", "mistyped"}), strings.Join(p, ""))
+	}
+}
+
+var c10BoltDatasets = []string{"empty", "nulls", "full", "mixedA", "mixedB", "big", "mistyped"}
+
+// every kind of symbol a sort clause can name: id, typed fields, aliased / nested / mapped fields,
+// any-typed and other-typed fields, fk symbol, set symbols (plain, public, fk), map and map elements,
+// linked and doubly linked symbols (plain and set), symbols over a set, unknown names in every
+// position, quoted and odd spellings
+var c10SortSymbols = []string{"id", "s", "n", "f", "b", "d", "nk", "ps", "ms", "a", "o", "createdAt", "isSystem", "owner",
+	"ss", "ns", "kids", "pss", "tags", "tags.x", "tags.y", "tags.x.y", "owner.s", "owner.n", "owner.id", "owner.ss", "owner.kids",
+	"owner.parent", "owner.parent.s", "owner.parent.owner.n", "owner.tags.x", "kids.s", "kids.ss", "kids.parent.s", "kids.id",
+	"zz", "zz.s", "owner.zz", "s.x", "id.x", "'s'", "'owner.s'", "S", "q.r-s", "sub", "sub.ps"}
+
+var c10PagingValues = []string{"0", "1", "2", "3", "5", "100", "-1", "-2", "9223372036854775807", "9223372036854775806",
+	"-9223372036854775808", "9223372036854775808", "4611686018427387904", "1.5", "1e3", "-0"}
+
+// genBoltSort: sort clauses over every symbol kind, many fields, duplicates, `id` in every position,
+// and the extremes of skip / limit, on every dataset - judged for panics.
+func (g *c10Gen) genBoltSort(emit func(ds, text string)) {
+	thorough := g.tier == "thorough"
+	dirs := []string{"", " asc", " desc", " DESC"}
+	preds := []string{"", "true ", "n > 0 ", "not b ", `anyOf(ss) = "x" `, `count(kids) > 0 `, `owner.s = "x" `, `isEmpty(from kids where s = "x") `, "s = null ", "tags.x != null "}
+	// one field, every symbol, every direction, with and without a predicate
+	for _, ds := range c10BoltDatasets {
+		for _, sym := range c10SortSymbols {
+			for di, d := range dirs {
+				if di == 3 && !thorough {
+					continue
+				}
+				emit(ds, "sort by "+sym+d)
+				emit(ds, pick(g.r, preds[1:])+"sort by "+sym+d+pick(g.r, []string{"", " limit 2", " skip 1", " skip 1 limit 1"}))
+			}
+		}
+	}
+	field := func() string { return pick(g.r, c10SortSymbols) + pick(g.r, dirs) }
+	good := []string{"s", "n", "f", "b", "d", "nk", "ps", "ms", "createdAt", "isSystem", "owner", "id"}
+	goodField := func() string { return pick(g.r, good) + pick(g.r, dirs) }
+	n := 900
+	if thorough {
+		n = 40000
+	}
+	for i := 0; i < n; i++ {
+		var fs []string
+		k := 1 + g.r.intn(8) // up to 8 fields: more than SortMax
+		for j := 0; j < k; j++ {
+			switch g.r.intn(6) {
+			case 0:
+				fs = append(fs, field())
+			case 1:
+				if len(fs) > 0 { // a duplicate, possibly in the other direction
+					fs = append(fs, strings.Fields(pick(g.r, fs))[0]+pick(g.r, dirs))
+				} else {
+					fs = append(fs, goodField())
+				}
+			case 2:
+				fs = append(fs, "id"+pick(g.r, dirs))
+			default:
+				fs = append(fs, goodField())
+			}
+		}
+		q := pick(g.r, preds) + "sort by " + strings.Join(fs, pick(g.r, []string{", ", ",", " , "}))
+		if g.r.chance(1, 3) {
+			q += " skip " + pick(g.r, c10PagingValues)
+		}
+		if g.r.chance(1, 3) {
+			q += " limit " + pick(g.r, append([]string{"none"}, c10PagingValues...))
+		}
+		emit(pick(g.r, c10BoltDatasets), q)
+	}
+	// paging extremes: every skip x every limit, unsorted, sorted by id (both directions), sorted by a
+	// field, sorted with duplicates in the key; in the outer query and inside a sub-query
+	lims := append([]string{"none", "NONE"}, c10PagingValues...)
+	sorts := []string{"", "sort by id ", "sort by id desc ", "sort by n desc ", "sort by b, s desc ", "sort by zz "}
+	for _, sk := range append([]string{""}, c10PagingValues...) {
+		for _, li := range append([]string{""}, lims...) {
+			tail := ""
+			if sk != "" {
+				tail += "skip " + sk + " "
+			}
+			if li != "" {
+				tail += "limit " + li
+			}
+			if tail == "" {
+				continue
+			}
+			for si, so := range sorts {
+				if !thorough && si > 1 && !g.r.chance(1, 2) {
+					continue
+				}
+				ds := pick(g.r, c10BoltDatasets[1:])
+				emit(ds, so+tail)
+				if g.r.chance(1, 3) {
+					emit(pick(g.r, c10BoltDatasets), pick(g.r, preds[1:])+so+tail)
+				}
+				if g.r.chance(1, 4) {
+					emit(ds, "count(from kids where true "+so+tail+") > 0")
+					emit(ds, "isEmpty(from kids where "+strings.TrimSpace(so+tail)+")")
+				}
+			}
+		}
 	}
 }
